@@ -558,11 +558,13 @@ class Sandbox:
             self._current_stdout.append(io.StringIO())
         else:
             self._current_stdout.append(PrintingStringIO())
-        # And do the patches
+        # And do the patches. The module table goes last: starting the other two
+        # looks up `sys` and `time`, which the instructor may have blocked for
+        # the student's code.
         self._start_patches(
-            patch.dict('sys.modules', overridden_modules),
             patch('sys.stdout', self._current_stdout[-1]),
             patch('time.sleep', return_value=None),
+            patch.dict('sys.modules', overridden_modules),
         )
 
     def _stop_mocking(self, context: SandboxContext):
